@@ -181,3 +181,102 @@ def replay_ingress_mixed_reads(model, params, role):
 
 def replay_ingress_detach(model, params, role):
     return _replay_ingress(model, params, role, True)
+
+
+# ------------------------------------------------------------------------------------------------
+# ROUTER sender side: the frames handed to the connection must form ONE ZMTP message whatever MORE flags the
+# application set on the payload frames it passed to send_multipart
+ROUTER = "socket::router_socket::RouterSocket"
+STRATS = ["DealerPeerStrategy", "ReqPeerStrategy", "RouterPeerStrategy", "DefaultRouterStrategy"]
+
+
+class _Stop(Exception):
+    pass
+
+
+def router_send_multipart_flags(h):
+    """RouterSocket::send_multipart from the point where the peer is known (region mode inside its coroutine MIR:
+    prepare_wire_frames of the peer's strategy, then the function's own flag fix-up) to the hand-over to the
+    connection. Payload of 1..3 frames, each empty or one symbolic byte, each with a symbolic MORE flag as set by
+    the application."""
+    from .d_c01 import _debug_places
+    from .d_c07 import _flag
+    from ..models import _deref
+    prog = h.it.prog
+    fn = prog.resolve_method("", ROUTER, "send_multipart", "ISocket")
+    clo = fn + "::{closure#0}"
+    body = prog.body(clo)
+    dbg = _debug_places(prog, clo)
+    k = 1 + h.choose(3, "payload_frames")
+    strat = STRATS[h.choose(len(STRATS), "peer_strategy")]
+    fb = Ref(Cell(h.method("message::FrameBatch", "new"), "fb"), ())
+    from_bits = h.it.prog.body(h.it.resolve_fn("message::flags::_::<impl message::flags::MsgFlags>::from_bits_retain", ""))
+    app_more = []
+    for i in range(k):
+        empty = h.choose(2, f"empty{i}") == 1
+        m = Ref(Cell(h.method("message::msg::Msg", "from_vec", Seq("vec", [] if empty else [h.byte(f"p{i}")])), "m"), ())
+        more = h.choose(2, f"more{i}") == 1            # whatever the application happened to set
+        app_more.append(more)
+        h.method("message::msg::Msg", "set_flags", m, h.it.run_body(from_bits, [1 if more else 0]))
+        h.method("message::FrameBatch", "push", fb, m.load())
+    ident = h.method("message::msg::Msg", "from_vec", Seq("vec", [0x49]))
+    # the socket: only `framing` is read by the region
+    enc = FnItem("socket::patterns::framing::router_auto_encode")
+    dec = FnItem("socket::patterns::framing::router_auto_decode")
+    latch = h.method("socket::patterns::framing::FramingLatch", "new", enc, dec)
+    fields = prog.struct_fields(ROUTER)
+    sock = Ref(Cell(Agg(ROUTER, [latch if f == "framing" else Opaque(f) for f in fields]), "router"), ())
+    sf = SparseF([sock, Opaque("frames-moved")])
+    def put(name, v):
+        kind = dbg[name]
+        sf[(kind[2] + 1) * 1000 + kind[3]] = v
+    need = ["frames", "destination_identity_msg", "conn_iface", "router_mandatory_opt", "__self"]
+    h.check(all(n in dbg and dbg[n][0] == "field" for n in need), "c02.router.setup-debug-places", str({n: dbg.get(n) for n in need}))
+    put("__self", sock)
+    put("frames", fb.load())
+    put("destination_identity_msg", ident)
+    put("conn_iface", BoxV(Cell(Agg("{peer}", [0]), "peer"), (), "{peer}"))
+    put("router_mandatory_opt", True)
+    coro = Ref(Cell(Agg("{coroutine@router-send_multipart}", sf), "coro"), ())
+    # entry: the block that calls prepare_wire_frames; its strategy operand is computed by the block before it
+    entry, strat_local = None, None
+    for bb, raw in body.blocks.items():
+        term = raw[-1][0]
+        if "RouterSendStrategy>::prepare_wire_frames(" in term:
+            entry = bb
+            import re as _re
+            strat_local = int(_re.search(r"prepare_wire_frames\((?:copy|move) _(\d+)", term).group(1))
+    h.check(entry is not None and strat_local is not None, "c02.router.setup-entry-block")
+    sent = {}
+    def conn_send(it, args, dty, func):
+        sent["frames"] = args[1]
+        raise _Stop()
+    h.it.hooks["<dyn socket::connection_iface::ISocketConnection as socket::connection_iface::ISocketConnection>::send_multipart"] = conn_send
+    strategy = BoxV(Cell(Agg("socket::patterns::router::strategies::" + strat, []), "strategy"), (), "socket::patterns::router::strategies::" + strat)
+    h.panic_role = "c02.router-send"
+    coro_local = dbg["frames"][1]
+    try:
+        h.it.run_body(body, [], start_bb=entry, preset={coro_local: coro, strat_local: strategy, 2: Opaque("cx")})
+    except _Stop:
+        pass
+    h.check("frames" in sent, "c02.router.setup-region-reached-the-connection")
+    if "frames" not in sent:
+        return
+    from .d_c07 import _frames
+    wire = _frames(sent["frames"])
+    n = len(wire)
+    h.check(n >= k, "c02.router.payload-frames-missing-on-the-wire", f"{k} payload frames, {n} wire frames")
+    flags = [bool(_flag(m, 1)) for m in wire]
+    ok_ = all(flags[:-1]) and not flags[-1] if n else True
+    h.check(ok_, "c02.router.send_multipart-payload-split-into-several-messages",
+            f"peer strategy {strat}: application passed {k} payload frame(s) with MORE flags {app_more}; the {n} frames handed to the connection carry MORE = {flags} "
+            f"(a frame without MORE before the last one ends the message early)")
+    h.cover("c02.router.multi-frame-payload", k >= 2)
+    h.cover("c02.router.flags-not-preset", k >= 2 and not all(app_more[:-1]))
+
+
+def replay_router_send_multipart_flags(model, params, role):
+    if "split-into-several-messages" in role:
+        return "router_multipart_flags\n", (lambda out: "SPLIT" in out), \
+            "ROUTER.send_multipart([id, \"a\", \"b\"]) without MORE flags to a DEALER over tcp; expecting the payload to arrive as more than one message"
+    return None
